@@ -157,6 +157,12 @@ func init() {
 			Subs: []subCheck{
 				{ID: "C12", World: "sqlsim", Quick: 6000, Thorough: 300000, QuickCap: 80, ThoroughCap: 1500, GC: "100",
 					Probes: []string{"handle-re-executed", "schema-changed-under-handle"}},
+				// C12b: the binary protocol: kept COM_STMT_PREPARE handles executed with typed
+				// parameters by the go-sql-driver client against table tp, the same statement as
+				// text against the twin table tl, both at once over the simulated network
+				// (fragmentation, stalls), schema changes between executions
+				{ID: "C12b", World: "wiresim", Quick: 1500, Thorough: 100000, QuickCap: 80, ThoroughCap: 1200, GC: "100",
+					Probes: []string{"handle-re-executed", "schema-changed-under-handle", "fragment"}},
 			},
 		},
 		propCheck{
@@ -278,6 +284,13 @@ func init() {
 			Subs: []subCheck{
 				{ID: "C35", World: "wiresim", Quick: 2400, Thorough: 200000, QuickCap: 100, ThoroughCap: 1500, GC: "100",
 					Probes: []string{"fragment", "stall", "reset-mid-statement", "result-batches:5", "result-batches:6", "error-delivered:select-row-error"}},
+				// C35s: what a connection sees after statements that fail: 2-4 connections take
+				// turns with succeeding and failing writes (duplicate key while executing),
+				// statements failing at plan time, COM_STMT_PREPARE that succeeds (handle kept) or
+				// fails, and reads of the table over the text protocol, kept handles and fresh
+				// prepared statements; every read must equal the sum of the acknowledged writes
+				{ID: "C35s", World: "wiresim", Quick: 4000, Thorough: 300000, QuickCap: 80, ThoroughCap: 1200, GC: "100",
+					Probes: []string{"failed-statement:insert-dup", "failed-statement:update-dup", "failed-statement:plan-error", "fragment"}},
 			},
 		},
 		propCheck{
